@@ -333,16 +333,53 @@ def explore(chk, judge_name, budget2=None, want_keys=False):
         else:
             pairs.append((("MultiMarker", ("MarkerUnion", x, y), pp), ("MultiMarker", pp, ("MarkerUnion", z, w)), "&"))
     stats["level2_mixed_shared_member_family"] = nmix
+    # (f) the universal / empty marker as an operand of compounds (they reach compounds through only()/exclude() and through merges)
+    picked = list(compounds)
+    rnd.shuffle(picked)
+    for kc in picked[: (120 if tier == "quick" else 2000)]:
+        for special in (("AnyMarker",), ("EmptyMarker",)):
+            for opn in ("&", "|"):
+                pairs.append((kc, special, opn))
+                pairs.append((special, kc, opn))
+    # (h) an == group and the != group over the same variable and values (they hash alike, compare unequal) as children of two compounds
+    for kg in groups:
+        twin = ("InequalityMultiMarker" if kg[0] == "EqualityMarkerUnion" else "EqualityMarkerUnion", kg[1], kg[2])
+        rest = [k for k in atom_keys if k[1] != kg[1] and not k[4]]
+        if len(rest) < 2:
+            continue
+        for _ in range(2 if tier == "quick" else 6):
+            x, y = rnd.sample(rest, 2)
+            for kind in ("MultiMarker", "MarkerUnion"):
+                for opn in ("&", "|"):
+                    pairs.append(((kind, kg, x), (kind, twin, y), opn))
+    # (g) same-kind compounds where one's members are a strict subset of the other's: absorption must go the right way
+    nsub = 400 if tier == "quick" else 6000
+    diff_var = [k for k in atom_keys if not k[4]]
+    for i in range(nsub):
+        x, y, z = rnd.sample(diff_var, 3)
+        if len({x[1], y[1], z[1]}) < 3 or sum(1 for k in (x, y, z) if k[1].startswith("python")) > 1:
+            continue
+        kind = ("MarkerUnion", "MultiMarker")[i % 2]
+        big, small = (kind, x, y, z), (kind, x, y)
+        opn = ("|", "&")[(i // 2) % 2]
+        pairs.append((big, small, opn))
+        pairs.append((small, big, opn))
     # (d) operands that only the PARSER produces (it calls MarkerUnion.of directly; `|` goes through cnf/dnf): `x and y or z` texts
     texts = []
     atom_texts = [_show_key(k) for k in atom_keys if not k[4]]
     for i in range(300 if tier == "quick" else 4000):
-        x, y, z = rnd.sample(atom_texts, 3)
-        texts.append(f"{x} and {y} or {z}")
+        x, y, z, w = rnd.sample(atom_texts, 4)
+        # first the shapes with two conjunctions (they are the ones for which union()'s un-normalised candidate can be the least complex)
+        texts.append(f"{x} and {y} or {z} and {w}" if i % 3 == 0 else f"{x} and {y} or {z}")
     stats["level2_parsed_text_operands"] = len(texts)
     for i, t in enumerate(texts):
         other = atom_keys[rnd.randrange(len(atom_keys))] if i % 3 else ("TEXT", texts[rnd.randrange(len(texts))])
         pairs.append((("TEXT", t), other, ("&", "|")[i % 2]))
+        if i < (40 if tier == "quick" else 400):
+            for special in (("AnyMarker",), ("EmptyMarker",)):
+                for opn in ("&", "|"):
+                    pairs.append((("TEXT", t), special, opn))
+                    pairs.append((special, ("TEXT", t), opn))
     space = [0] * (len(compounds) * (len(atom_keys) + len(groups)) * 2)
     cc = [0] * 0
     stats["level2_space_compound_pairs"] = len(compounds) ** 2 * 2 + len(space) * 2
@@ -418,6 +455,11 @@ def collect_universe(chk, limit=None, budget2=None):
     def nested(k):
         return any(isinstance(c, tuple) and c and c[0] in ("MultiMarker", "MarkerUnion", "EqualityMarkerUnion", "InequalityMultiMarker")
                    for c in k[1:])
+    def has_special(k):
+        return any(isinstance(c, tuple) and c and (c[0] in ("AnyMarker", "EmptyMarker") or (c[0] in ("MultiMarker", "MarkerUnion") and has_special(c)))
+                   for c in k[1:])
+    special = [k for k in comp if has_special(k)]
+    comp = [k for k in comp if not has_special(k)]
     deep = [k for k in comp if nested(k)]
     flat = [k for k in comp if not nested(k)]
     rnd = random.Random(chk.seed)
@@ -428,7 +470,7 @@ def collect_universe(chk, limit=None, budget2=None):
         deep_take = deep[: max(half, limit - len(flat))]
         flat_take = flat[: limit - len(deep_take)]
         comp = deep_take + flat_take
-    return simple + comp, len(allk)
+    return simple + special + comp, len(allk)
 
 
 register("collect", lambda dom, J, opn, a, b, kind, r: None)
